@@ -118,11 +118,16 @@ def setBit (flags : Nat) (bit : Int) (v : Bool) : Nat :=
 def applyFlag (flags : Nat) (bit : Int) (o : Option Bool) : Nat :=
   match o with | some v => setBit flags bit v | none => flags
 
+/-- the operational-state guard of `Bank::configure`: the killed state can be neither set nor left -/
+def stateGuard (cur : Gate.OpState) (o : Option Gate.OpState) : Res Unit :=
+  match o with
+  | some .killedByBankruptcy => bad E.Unauthorized
+  | some _ => if cur = .killedByBankruptcy then bad E.BankKilledByBankruptcy else .ok ()
+  | none => .ok ()
+
 /-- `Bank::configure` → (config', flags') -/
 def configure (c : Cfg) (flags : Nat) (o : CfgOpt) : Res (Cfg × Nat) := do
-  let _ ← (match o.opState with
-    | some .killedByBankruptcy => bad E.Unauthorized
-    | _ => (.ok () : Res Unit))
+  let _ ← stateGuard c.opState o.opState
   let c' : Cfg :=
     { aInit := setIf c.aInit o.aInit, aMaint := setIf c.aMaint o.aMaint, lInit := setIf c.lInit o.lInit,
       lMaint := setIf c.lMaint o.lMaint, depositLimit := setIf c.depositLimit o.depositLimit,
@@ -211,16 +216,21 @@ def satU32 (x : Int) : Int := if x > 4294967295 then 4294967295 else x
 def satI64 (x : Int) : Int :=
   if x > 9223372036854775807 then 9223372036854775807 else if x < -9223372036854775808 then -9223372036854775808 else x
 
-/-- whole dollars counted for a withdrawal of value `v` (bits): `to_num::<u32>()` saturating at u32::MAX
-    (negative values clamp to 0) -/
-def wholeDollars (v : Int) : Int :=
-  let n := v / ONE
-  if n < 0 then 0 else satU32 n
+/-- the daily reset at the top of `update_withdrawn_equity` -/
+def resetWindow (w : Window) (now : Int) : Window :=
+  if satI64 (now - w.lastReset) ≥ DAILY_RESET_INTERVAL then { w with withdrawnToday := 0, lastReset := now } else w
+
+/-- add `n` whole dollars (`checked_to_num::<u32>` of the value, floor) to today's counter: a value or a
+    sum that does not fit u32 is rejected when a limit is set and saturates the counter when there is none -/
+def addDollars (w : Window) (n : Int) : Res Window :=
+  if 0 ≤ n ∧ n ≤ 4294967295 ∧ w.withdrawnToday + n ≤ 4294967295 then
+    if w.dailyLimit ≠ 0 ∧ w.withdrawnToday + n > w.dailyLimit then bad E.DailyWithdrawalLimitExceeded
+    else .ok { w with withdrawnToday := w.withdrawnToday + n }
+  else if w.dailyLimit ≠ 0 then bad E.DailyWithdrawalLimitExceeded
+  else .ok { w with withdrawnToday := 4294967295 }
 
 /-- `update_withdrawn_equity(withdrawn_equity, now)` -/
 def updateWithdrawnEquity (w : Window) (v now : Int) : Res Window :=
-  let w1 := if satI64 (now - w.lastReset) ≥ DAILY_RESET_INTERVAL then { w with withdrawnToday := 0, lastReset := now } else w
-  let w2 := { w1 with withdrawnToday := satU32 (w1.withdrawnToday + wholeDollars v) }
-  if w2.dailyLimit ≠ 0 ∧ w2.withdrawnToday > w2.dailyLimit then bad E.DailyWithdrawalLimitExceeded else .ok w2
+  addDollars (resetWindow w now) (v / ONE)
 
 end Mfi.Admin
